@@ -1,0 +1,77 @@
+// Copyright 2025 Anapaya Systems
+//
+// Licensed under the Apache License, Version 2.0 (the "License");
+// you may not use this file except in compliance with the License.
+// You may obtain a copy of the License at
+//
+//   http://www.apache.org/licenses/LICENSE-2.0
+//
+// Unless required by applicable law or agreed to in writing, software
+// distributed under the License is distributed on an "AS IS" BASIS,
+// WITHOUT WARRANTIES OR CONDITIONS OF ANY KIND, either express or implied.
+// See the License for the specific language governing permissions and
+// limitations under the License.
+//! Verification hooks (feature `verif-hooks`): thin forwards to crate-private functions.
+#![allow(missing_docs)]
+
+use std::{net::IpAddr, sync::Arc, time::Instant};
+
+use sciparse::{
+    address::{addr::ScionAddr, host_addr::ScionHostAddr},
+    core::encode::EncodeError,
+    packet::view::ScionPacketView,
+};
+use snap_tun::server::SnapTunAuthorization;
+
+pub use super::packet_policy::{PacketPolicyError, inbound_datagram_check};
+use super::{NoopTunnelGatewayObserver, gateway};
+use crate::dispatcher::Dispatcher;
+
+/// Size of the gateway's packet buffers.
+pub const PACKET_BUF_SIZE: usize = gateway::PACKET_BUF_SIZE;
+
+struct NoAuthz;
+impl SnapTunAuthorization for NoAuthz {
+    type SessionData = ();
+    fn is_authorized(&self, _now: Instant, _identity: &[u8; 32]) -> Option<Arc<()>> {
+        None
+    }
+}
+struct NoDispatch;
+impl Dispatcher for NoDispatch {
+    fn try_dispatch(&self, _packet: &ScionPacketView) {}
+}
+
+/// What the gateway does with a decrypted datagram from `peer`.
+pub enum IngressVerdict {
+    /// Passed to the dispatcher.
+    Dispatch,
+    /// Answered with this SCMP packet (bytes as written into a gateway packet buffer).
+    ScmpReply(Vec<u8>),
+    /// Rejected and building the SCMP reply failed.
+    ReplyEncodeError(EncodeError),
+}
+
+/// Runs the gateway's real ingress check and, on rejection, the real SCMP error builder into a
+/// buffer obtained from a pool of the gateway's buffer size.
+pub fn ingress(datagram: &[u8], peer: IpAddr, local_addr: ScionHostAddr) -> IngressVerdict {
+    match inbound_datagram_check(datagram, peer) {
+        Ok(_view) => IngressVerdict::Dispatch,
+        Err(e) => {
+            let pool = gateway::PacketPool::new(1);
+            let mut target_buf = pool.get();
+            match gateway::verif_create_scmp_error::<NoAuthz, NoDispatch, NoopTunnelGatewayObserver>(
+                e,
+                local_addr,
+                ScionAddr::new(sciparse::identifier::isd_asn::IsdAsn::WILDCARD, peer.into()),
+                &mut target_buf,
+            ) {
+                Ok(n) => {
+                    target_buf.truncate(n);
+                    IngressVerdict::ScmpReply(target_buf[..].to_vec())
+                }
+                Err(e) => IngressVerdict::ReplyEncodeError(e),
+            }
+        }
+    }
+}
